@@ -168,14 +168,14 @@ def _mk_test(tag, n, mids, helper_uid, plug=True):
   return test, recs, events
 
 
-def _check_fields(rec, facts):
+def _check_fields(rec, facts, bounds=True):
   this = os.path.basename(__file__)
   for l in rec.log_records:
     if not l.message.startswith('m#'):
       continue
     if l.source != this or not isinstance(l.lineno, int) or l.lineno <= 0:
       facts.append('X:source-or-line-wrong:%s:%s' % (l.source, l.lineno))
-    if not (rec.start_time_millis - 2 <= l.timestamp_millis <= rec.end_time_millis + 2):
+    if bounds and not (rec.start_time_millis - 2 <= l.timestamp_millis <= rec.end_time_millis + 2):
       facts.append('X:timestamp-outside-the-run')
     want = logging.WARNING if ' helper' in l.message else logging.INFO
     if l.level != want:
@@ -227,7 +227,33 @@ def _run_conc(case):
   sched_exec.install(True)
   logs = _setup_logging()
   saved_time = logging.time
-  logging.time = sched.VTime()      # log record timestamps on the same (virtual) clock as the test record
+  saved_factory = logging.getLogRecordFactory()
+  created = {}
+
+  class _Ticking(object):
+    # the virtual clock of the test record, moving on by 1 ms at every reading: no two log records are created at the
+    # same instant, so an entry stamped with another message's time shows
+    def __init__(self):
+      self.vt, self.n = sched.VTime(), 0
+
+    def time(self):
+      self.n += 1
+      return self.vt.time() + self.n * 0.001
+
+    def __getattr__(self, name):
+      return getattr(self.vt, name)
+  logging.time = _Ticking()
+
+  def factory(*a, **k):
+    r = saved_factory(*a, **k)
+    try:
+      msg = r.getMessage()
+    except Exception:  # pylint: disable=broad-except
+      msg = ''
+    if msg.startswith('m#'):
+      created[msg] = r.created
+    return r
+  logging.setLogRecordFactory(factory)
   mids = itertools.count(1)
   base = len(logging.getLogger('openhtf').handlers)
   box = {}
@@ -266,6 +292,7 @@ def _run_conc(case):
     logs.initialize_record_handler, logs.remove_record_handler = orig_init, orig_rem
     logging.disable(logging.CRITICAL)
     logging.time = saved_time
+    logging.setLogRecordFactory(saved_factory)
   facts = []
   if s.deadlock or 'sched_error' in rbox:
     return {'ops': [], 'obs': [], 'facts': ['X:deadlock-or-stuck']}
@@ -277,7 +304,10 @@ def _run_conc(case):
     names = [l.logger_name for l in rec.log_records if l.logger_name.startswith('openhtf.test_record.')]
     uid = names[0].split('.')[2] if names else '?%d' % len(uids)
     uids.append(uid)
-    _check_fields(rec, facts)
+    _check_fields(rec, facts, bounds=False)
+    for l in rec.log_records:
+      if l.message in created and l.timestamp_millis != int(created[l.message] * 1000):
+        facts.append('X:entry-stamped-with-a-time-other-than-its-own-creation')
     obs.append((uid, _ids(rec)))
   # spec for the concurrent runs, judged here on the real records: own messages exactly once and in order,
   # framework messages of the OTHER run's phase at most once, nothing of the other run's record loggers
